@@ -180,7 +180,7 @@ class DoctestParser:
         # If all lines begin with the same indentation, then strip it.
         min_indent = _min_indentation(string)
         if min_indent > 0:
-            string = '\n'.join([ln[min_indent:] for ln in string.splitlines()])
+            string = '\n'.join([ln[min_indent:] for ln in _splitlines(string)])
 
         labeled_lines = None
         grouped_lines = None
@@ -714,7 +714,7 @@ class DoctestParser:
         #     want -> [want, text, dsrc]
         prev_state = TEXT
         curr_state = None
-        line_iter = enumerate(string.splitlines())
+        line_iter = enumerate(_splitlines(string))
 
         for line_idx, line in line_iter:
             match = INDENT_RE.search(line)
@@ -830,6 +830,21 @@ class DoctestParser:
             print('</FINISH LABELED LINES>')
 
         return labeled_lines
+
+
+def _splitlines(text):
+    """
+    Split text into the lines it has in a Python source file.
+
+    Unlike :func:`str.splitlines` this does not break at form feeds, vertical
+    tabs, file / group / record separators, NEL or the unicode line and
+    paragraph separators, none of which end a line of a file (breaking there
+    shifts every line number reported for the rest of the docstring).
+    """
+    lines = re.split('\\r\\n|\\n|\\r', text)
+    if lines and lines[-1] == '':
+        lines.pop()
+    return lines
 
 
 def _min_indentation(s):
